@@ -931,7 +931,7 @@ func arMethodOrder(a abi.ABIContract) []string {
 // to the sending CONTRACT with empty call data, and applySend of that refund runs the method lookup of the destination.
 // ---------------------------------------------------------------------------------------------------
 
-var arScenarios = []string{"wrap-owned-unburnable", "wrap-owned-unburnable-htlc-regime"}
+var arScenarios = []string{"wrap-owned-unburnable", "wrap-owned-unburnable-htlc-regime", "wrap-owned-never-burnable", "wrap-owned-never-burnable-fee", "wrap-owned-unburnable-fee"}
 
 func (w *arWorld) runScenario(name string) {
 	r := w.r
@@ -977,16 +977,36 @@ func (w *arWorld) runScenario(name string) {
 		w.runProofStates()
 		return
 	}
+	if strings.HasPrefix(name, "spork-switch:") {
+		w.runSporkSwitch(strings.TrimPrefix(name, "spork-switch:"))
+		return
+	}
 	switch name {
-	case "wrap-owned-unburnable", "wrap-owned-unburnable-htlc-regime":
-		// The administrator lists a token as "owned" (wraps burn it, redeems mint it) that the bridge does not own:
-		// tokOwned, issued by User1, burnable. Wrapping works (anyone may burn a burnable token). Then the token's owner
-		// switches IsBurnable off (UpdateToken, his right at any time). The next wrap makes the bridge send
-		// Burn(amount) to the token contract; the burn is refused (not burnable, sender is not the owner); the refund of
-		// the amount goes to the bridge contract with empty data.
+	case "wrap-owned-unburnable", "wrap-owned-unburnable-htlc-regime", "wrap-owned-never-burnable", "wrap-owned-never-burnable-fee", "wrap-owned-unburnable-fee":
+		// The administrator lists a token as "owned" (wraps burn it, redeems mint it) that the bridge does not own.
+		//  -unburnable: tokOwned, issued by User1, burnable. Wrapping works (anyone may burn a burnable token). Then the token's
+		//    owner switches IsBurnable off (UpdateToken, his right at any time). The next wrap makes the bridge send
+		//    Burn(amount) to the token contract; the burn is refused (not burnable, sender is not the owner); the refund of
+		//    the amount goes to the bridge contract with empty data.
+		//  -never-burnable: tokFixed, issued by User2, never burnable: the first wrap already meets the refusal.
+		//  -fee: the pair takes a fee, the bridge keeps it and asks for a burn of amount - fee (the two amounts differ).
+		// Wrapped amounts: 500 in the two original scenarios, else one of a small family chosen by the seed.
+		tok, holder := w.tokOwned, g.User1.Address
+		never := strings.Contains(name, "never-burnable")
+		if never {
+			tok, holder = w.tokFixed, g.User2.Address
+		}
+		fee := uint32(0)
+		if strings.HasSuffix(name, "-fee") {
+			fee = uint32(15)
+		}
+		amount := big.NewInt(500)
+		if name != "wrap-owned-unburnable" && name != "wrap-owned-unburnable-htlc-regime" {
+			amount = big.NewInt([]int64{1, 2, 7, 500, 9985, 10000, 65536, 100000, 1000000}[r.c.R.Intn(9)])
+		}
 		pair := func() {
 			send(&nom.AccountBlock{Address: w.admin, ToAddress: types.BridgeContract, Data: definition.ABIBridge.PackMethodPanic(definition.SetTokenPairMethod,
-				uint32(2), uint32(123), w.tokOwned, "0x5bbbb2315678afecb367f032d93f642f64180aa3", true, true, true, big.NewInt(1), uint32(0), uint32(2), `{}`)})
+				uint32(2), uint32(123), tok, "0x5bbbb2315678afecb367f032d93f642f64180aa3", true, true, true, big.NewInt(1), fee, uint32(2), `{}`)})
 		}
 		pair()
 		if !steps(int(constants.MinSoftDelay) + 2) {
@@ -997,17 +1017,19 @@ func (w *arWorld) runScenario(name string) {
 			return
 		}
 		wrap := func() *nom.AccountBlock {
-			return send(&nom.AccountBlock{Address: g.User1.Address, ToAddress: types.BridgeContract, TokenStandard: w.tokOwned, Amount: big.NewInt(500),
+			return send(&nom.AccountBlock{Address: holder, ToAddress: types.BridgeContract, TokenStandard: tok, Amount: new(big.Int).Set(amount),
 				Data: definition.ABIBridge.PackMethodPanic(definition.WrapTokenMethodName, uint32(2), uint32(123), arEvmAdr2)})
 		}
-		if wrap() == nil || !steps(3) { // burnable: wrap applied, burn applied
-			return
-		}
-		r.c.Hit("scenario-wrap-while-burnable-done")
-		send(&nom.AccountBlock{Address: g.User1.Address, ToAddress: types.TokenContract,
-			Data: definition.ABIToken.PackMethodPanic(definition.UpdateTokenMethodName, w.tokOwned, g.User1.Address, true, false)})
-		if !steps(2) {
-			return
+		if !never {
+			if wrap() == nil || !steps(3) { // burnable: wrap applied, burn applied
+				return
+			}
+			r.c.Hit("scenario-wrap-while-burnable-done")
+			send(&nom.AccountBlock{Address: g.User1.Address, ToAddress: types.TokenContract,
+				Data: definition.ABIToken.PackMethodPanic(definition.UpdateTokenMethodName, w.tokOwned, g.User1.Address, true, false)})
+			if !steps(2) {
+				return
+			}
 		}
 		if wrap() == nil {
 			return
@@ -1018,4 +1040,173 @@ func (w *arWorld) runScenario(name string) {
 		steps(4)
 		r.c.Hit("scenario-wrap-after-unburnable-done")
 	}
+}
+
+// ---------------------------------------------------------------------------------------------------
+// spork-switch scenarios: the spork regime changes DURING the history. The history starts with no spork and enforces the
+// three sporks one after the other in the given order (a = accelerator, b = bridge & liquidity, h = htlc; all six orders
+// are legal: sporks are independent objects of the spork contract, known finding F17 is about which methods an
+// out-of-order regime exposes, not about what happens to accepted calls). From the momentum in which a spork's activation
+// is sent until two momentums past its enforcement height, every momentum carries a batch of calls to the contracts whose
+// method tables depend on the regime (accelerator, liquidity, bridge, htlc, and the CollectReward / Update methods that
+// change implementation), built by the canonical generator for the current world: those that send-time validation accepts
+// under the regime of the acknowledged momentum are confirmed by the next momentum and received under the regime of THAT
+// momentum - the calls accepted at the frontier just below an enforcement height are in flight across the switch. The C09
+// monitors of the stream judge every one of them: receive produced without panic or error, applied or refunded exactly,
+// inbox drained.
+// ---------------------------------------------------------------------------------------------------
+
+var arSporkSwitchOrders = []string{"hba", "ahb", "hab", "abh", "bah", "bha"}
+
+func (w *arWorld) runSporkSwitch(order string) {
+	r := w.r
+	n := r.n
+	c := r.c
+	type probe struct {
+		to     types.Address
+		method string
+	}
+	// one amount-carrying or state-changing call per gated contract in every batch ...
+	core := []probe{{types.HtlcContract, "Create"}, {types.AcceleratorContract, "Donate"}, {types.LiquidityContract, "Donate"},
+		{types.BridgeContract, "WrapToken"}, {types.LiquidityContract, "LiquidityStake"}, {types.AcceleratorContract, "CreateProject"},
+		{types.HtlcContract, "Unlock"}, {types.PillarContract, "CollectReward"}}
+	// ... and the other methods of those contracts in rotation (not the ones that give the administration away)
+	var rest []probe
+	for _, ca := range allContractABIs {
+		switch ca.addr {
+		case types.AcceleratorContract, types.LiquidityContract, types.BridgeContract, types.HtlcContract:
+			for _, m := range arMethodOrder(ca.abi) {
+				switch m {
+				case "Emergency", "ChangeAdministrator", "ProposeAdministrator", "Halt", "RemoveNetwork", "RemoveTokenPair":
+					continue
+				}
+				rest = append(rest, probe{ca.addr, m})
+			}
+		case types.SentinelContract, types.StakeContract:
+			rest = append(rest, probe{ca.addr, "CollectReward"}, probe{ca.addr, "Update"})
+		case types.PillarContract:
+			rest = append(rest, probe{ca.addr, "Update"})
+		}
+	}
+	next := 0
+	regimeNow := func() string {
+		st := n.Chain().GetFrontierMomentumStore()
+		s := ""
+		for _, x := range []struct {
+			l  string
+			sp *types.ImplementedSpork
+		}{{"a", types.AcceleratorSpork}, {"b", types.BridgeAndLiquiditySpork}, {"h", types.HtlcSpork}} {
+			if on, _ := st.IsSporkActive(x.sp); on {
+				s += x.l
+			}
+		}
+		if s == "" {
+			s = "0"
+		}
+		return s
+	}
+	batch := func(tag string) bool {
+		calls := append([]probe{}, core...)
+		for k := 0; k < 5 && len(rest) > 0; k++ {
+			calls = append(calls, rest[next%len(rest)])
+			next++
+		}
+		reg := regimeNow()
+		for i, p := range calls {
+			spec := w.canonical(p.to, p.method)
+			if spec == nil {
+				continue
+			}
+			call := w.pack(p.to, p.method, spec, "switch-"+tag)
+			if call == nil {
+				continue
+			}
+			blk := r.deliver(call, []string{"tpl", "ext"}[(i+next)%2])
+			if r.failed {
+				return false
+			}
+			if blk != nil {
+				c.Hit(fmt.Sprintf("switch-accepted-under-%s %s.%s", reg, arContractName(p.to), p.method))
+				if spec.onAccept != nil {
+					spec.onAccept(blk.Hash)
+				}
+			}
+		}
+		return true
+	}
+	sporkOf := map[byte]*types.ImplementedSpork{'a': types.AcceleratorSpork, 'b': types.BridgeAndLiquiditySpork, 'h': types.HtlcSpork}
+	for i := 0; i < len(order); i++ {
+		sp := sporkOf[order[i]]
+		if sp == nil {
+			continue
+		}
+		name := fmt.Sprintf("switch-%c-%d", order[i], r.id)
+		if _, err := n.Submit(&nom.AccountBlock{BlockType: nom.BlockTypeUserSend, Address: g.Spork.Address, ToAddress: types.SporkContract,
+			Data: definition.ABISpork.PackMethodPanic(definition.SporkCreateMethodName, name, "regime switch inside the history")}); err != nil {
+			c.Hit("switch-create-rejected")
+			return
+		}
+		if !batch("before") || !r.step() || !r.step() {
+			return
+		}
+		var id types.Hash
+		sporks, _ := n.Chain().GetFrontierMomentumStore().GetAllDefinedSporks()
+		for _, s := range sporks {
+			if s.Name == name {
+				id = s.Id
+			}
+		}
+		if id.IsZero() {
+			r.fail("spork-switch: spork %s was not created", name)
+			return
+		}
+		types.ImplementedSporksMap[id] = true
+		w.declared = append(w.declared, id)
+		if _, err := n.Submit(&nom.AccountBlock{BlockType: nom.BlockTypeUserSend, Address: g.Spork.Address, ToAddress: types.SporkContract,
+			Data: definition.ABISpork.PackMethodPanic(definition.SporkActivateMethodName, id)}); err != nil {
+			c.Hit("switch-activate-rejected")
+			return
+		}
+		sp.SporkId = id
+		enforce := uint64(0)
+		for k := 0; k < 16; k++ {
+			tag := "window"
+			if enforce != 0 {
+				switch h := n.Height(); {
+				case h+1 == enforce:
+					tag = "last-before-enforcement" // accepted under the old regime, confirmed and received under the new one
+				case h == enforce:
+					tag = "at-enforcement"
+				}
+			}
+			if !batch(tag) {
+				return
+			}
+			if tag == "last-before-enforcement" {
+				c.Hit("switch-batch-in-flight-across-" + string(order[i]) + "-after-" + regimeNow())
+			}
+			if !r.step() {
+				return
+			}
+			if enforce == 0 {
+				sporks, _ := n.Chain().GetFrontierMomentumStore().GetAllDefinedSporks()
+				for _, s := range sporks {
+					if s.Id == id && s.Activated {
+						enforce = s.EnforcementHeight
+					}
+				}
+			}
+			if enforce != 0 && n.Height() >= enforce+2 {
+				break
+			}
+		}
+		if on, _ := n.Chain().GetFrontierMomentumStore().IsSporkActive(sp); !on {
+			r.fail("spork-switch: spork %c is not enforced at height %d (enforcement height %d)", order[i], n.Height(), enforce)
+			return
+		}
+		c.Hit("switch-enforced-" + string(order[i]))
+		w.receiveAll(g.User1.Address)
+		w.receiveAll(g.User2.Address)
+	}
+	c.Hit("switch-history-done-" + order)
 }
